@@ -241,10 +241,78 @@ def check_precedence(res, case, f, sk, path, impl, env_val, default, tmp, keypat
             res.violate("C14:absent-env-changed-default", "an unset or empty variable changed the constructed value", dict(case, got=v0))
 
 
+def special_stream(ctx, res, n):
+    """two declarations the precedence stream cannot express on the wire: a challenge field whose default is already a digest, and a
+    key declared bound to a variable and then declared again opted out (or unbound): the last declaration is the one that counts"""
+    import cincoconfig as cc
+    from cincoconfig.fields import DigestValue
+    rng = ctx.rng
+    for i in range(n):
+        depth = rng.randint(0, 2)
+        var = "CINCO_T_C14_SP_%d" % i
+        s = cc.Schema()
+        holder = s
+        for lvl in range(depth):
+            holder = getattr(holder, "lvl%d" % lvl)
+        path = ".".join(["lvl%d" % l for l in range(depth)] + ["x"])
+
+        def doc(v):
+            t = {"x": v}
+            for lvl in reversed(range(depth)):
+                t = {"lvl%d" % lvl: t}
+            return t
+        if i % 2 == 0:
+            alg = rng.choice(["md5", "sha1", "sha256", "sha512"])
+            holder.x = cc.ChallengeField(alg, default=DigestValue.create("declared-default", getattr(__import__("hashlib"), alg)), env=var)
+            state = rng.choice(["unset", "empty", "value"])
+            case = {"stream": "special", "what": "challenge-digest-default", "alg": alg, "depth": depth, "env_state": state}
+            if state != "unset":
+                os.environ[var] = "" if state == "empty" else "from-the-environment"
+            try:
+                cfg = s()
+                want = "from-the-environment" if state == "value" else "declared-default"
+                res.case(stable([alg, depth, state]) if state == "value" else None, kind="special:challenge:" + state)
+                ok = lambda c, secret: c[path] is not None and c[path].challenge(secret) is None
+                try:
+                    ok(cfg, want)
+                except Exception:  # noqa
+                    res.violate("C14:env-ignored:challenge-digest-default", "a challenge field whose default is a digest does not start at the value its set variable gives (or at its default when the variable is unset or empty)", case)
+                cfg.load_tree(doc("from-the-file"))
+                want2 = "from-the-environment" if state == "value" else "from-the-file"
+                try:
+                    ok(cfg, want2)
+                except Exception:  # noqa
+                    res.violate("C14:load-vs-env:challenge-digest-default", "after a load the field holds neither the variable's value (variable set) nor the document's (variable unset or empty)", case)
+            finally:
+                os.environ.pop(var, None)
+        else:
+            second = rng.choice([False, None])
+            holder.x = cc.IntField(default=1, env=var)
+            holder.x = cc.IntField(default=2, env=second)         # declared again: opted out / no binding (no schema prefix here)
+            os.environ[var] = "9000"
+            case = {"stream": "special", "what": "redeclared", "second_env": second, "depth": depth}
+            try:
+                cfg = s()
+                res.case(stable([second, depth]), kind="special:redeclared")
+                if cfg[path] != 2:
+                    res.violate("C14:redeclared-still-bound", "a field declared again without a binding still takes the old variable at construction", dict(case, held=cfg[path]))
+                route = rng.choice(["load_tree", "loads"])
+                if route == "load_tree":
+                    cfg.load_tree(doc(7000))
+                else:
+                    cfg.loads(json.dumps(doc(7000)).encode(), format="json")
+                if cfg[path] != 7000:
+                    res.violate("C14:redeclared-load-skipped", "a document's value for a field declared again without a binding is dropped while the old variable is set",
+                                dict(case, route=route, held=cfg[path]))
+            finally:
+                os.environ.pop(var, None)
+
+
 def run(ctx, n_quick=120, n_thorough=4000):
     res = Result()
     names_stream(ctx, res)
     precedence_stream(ctx, res, ctx.n(n_quick, n_thorough))
+    special_stream(ctx, res, ctx.n(60, 1500))
     return res
 
 
